@@ -118,7 +118,9 @@ fn real_main() -> Result<i32, String> {
 }
 
 fn main() {
-    match real_main() {
+    let r = real_main();
+    simrun::unstage_binaries();
+    match r {
         Ok(code) => std::process::exit(code),
         Err(e) => {
             eprintln!("HARNESS-ERROR: {e}");
